@@ -253,7 +253,7 @@ pub fn run_case(ctx: &mut Ctx, fam: &str, k: u64, r: &mut Rng) {
         }
         "large" => {
             // sizes beyond any blocking / unrolling threshold (5..20, occasionally 33), 0..2 leading dims
-            let pick = |r: &mut Rng| -> usize { if r.chance(1, 10) { 33 } else { r.range(5, 20) } };
+            let pick = |r: &mut Rng| -> usize { if r.chance(1, 10) { *r.pick(&[31, 33, 63, 64, 65]) } else { r.range(5, 20) } };
             let (m, kk, n) = (pick(r), pick(r), pick(r));
             let lead: Vec<usize> = match r.below(4) { 0 => vec![], 1 => vec![r.range(2, 3)], 2 => vec![1, 2], _ => vec![2, 1] };
             let la = if r.chance(1, 3) { vec![] } else { lead.clone() };
